@@ -74,14 +74,30 @@ impl DocumentBuilder {
         self.element_builder = Some(ElementBuilder::new(prefix, name));
     }
 
-    fn prefix(&mut self, prefix: &str, namespace_uri: &str, xot: &mut Xot) {
+    fn prefix(
+        &mut self,
+        prefix: &str,
+        namespace_uri: StrSpan<'_>,
+        name_span: Span,
+        xot: &mut Xot,
+    ) -> Result<(), ParseError> {
+        // the namespace URI is an attribute value like any other: references are
+        // decoded and whitespace is normalized
+        let namespace_uri = parse_attribute(namespace_uri.as_str().into(), namespace_uri.start())?;
         let prefix_id = xot.prefix_lookup.get_id_mut(prefix);
-        let namespace_id = xot.namespace_lookup.get_id_mut(namespace_uri);
-        self.element_builder
-            .as_mut()
-            .unwrap()
-            .namespaces
-            .push((prefix_id, namespace_id));
+        let namespace_id = xot.namespace_lookup.get_id_mut(namespace_uri.as_ref());
+        let namespaces = &mut self.element_builder.as_mut().unwrap().namespaces;
+        // a namespace declaration is an attribute, and an attribute cannot occur twice
+        if namespaces.iter().any(|(p, _)| *p == prefix_id) {
+            let attr_name = if prefix.is_empty() {
+                "xmlns".to_string()
+            } else {
+                format!("xmlns:{}", prefix)
+            };
+            return Err(ParseError::DuplicateAttribute(attr_name, name_span));
+        }
+        namespaces.push((prefix_id, namespace_id));
+        Ok(())
     }
 
     fn attribute(
@@ -677,9 +693,11 @@ impl Xot {
                         span: _,
                     } => {
                         if prefix.as_str() == "xmlns" {
-                            builder.prefix(local.as_str(), value.as_str(), self);
-                        } else if local.as_str() == "xmlns" {
-                            builder.prefix("", value.as_str(), self);
+                            let name_span = Span::from_prefix_name(prefix, local);
+                            builder.prefix(local.as_str(), value, name_span, self)?;
+                        } else if prefix.is_empty() && local.as_str() == "xmlns" {
+                            let name_span = Span::from_prefix_name(prefix, local);
+                            builder.prefix("", value, name_span, self)?;
                         } else {
                             builder.attribute(prefix, local, value)?;
                         }
